@@ -17,7 +17,7 @@ KINDS = ["DE", "DE2", "NM", "PW"]
 
 def _reconf(rng):
     """one configuration call, the families equally likely"""
-    fam = rng.choice(["limits", "cfg", "evalmon", "term", "exit", "exit_in", "finalize", "stepmon"])
+    fam = rng.choice(["limits", "cfg", "evalmon", "term", "exit", "exit_in", "finalize", "stepmon", "query"])
     if fam == "limits":
         return ["limits", rng.choice([NONE, 0, 1, 2, 3, 5]), rng.choice([NONE, 0, 1, 3, 7, 12, 30]), rng.random() < 0.5]
     if fam == "cfg":
@@ -140,6 +140,8 @@ def run_script(kind, script, seed=0, dim=2, npop=4, cost=None, scripted_term=Fal
                     rec.exit_in(op[1])
                 elif name == "finalize":
                     rec.finalize()
+                elif name == "query":
+                    rec.query()
                 else:
                     raise ValueError(op)
             except Exception as ex:
